@@ -18,6 +18,8 @@ import (
 func init() {
 	fw.Register(&fw.Prop{
 		ID:       "C17",
+		Builds:   []string{"default", "386"}, // the 386 build runs 1/6 of the random classes on a 32-bit target
+		Scale386: 6,
 		Parallel: 4, // cases are judged on 4 goroutines per shard: the library functions are stateless, shared state inside them shows up as wrong verdicts
 		Rule: "calls Add, Double, ScalarMult, ScalarBaseMult, IsOnCurve on both copies of the curve (pkg/slip10/btccurve and the internal one behind elliptic.Secp256k1()) with points {G, [k]G small/random k, lifted random x, constructed boundary points with x or y in [n, p) or y close to 0, -P, (0,0)} in pairs {random, P=Q, P=-Q, identity operand(s)} and scalars {empty, 0, 1, 2, n-1, n, n+1, n+2, 2n, 2^256-1, k with [k] hitting +-P midway, random 1..40 bytes, 0..8 leading zero bytes}; each result compared with the affine model (identity as (0,0)); algebraic identities [a]P+[b]P=[a+b]P, [n]P=O, commutativity on the library alone. " +
 			"Non-trivial: distinct calls in a corner class (equal, opposite, identity operand, scalar = 0 mod n, scalar >= n, leading zeros, off-curve neighbours for IsOnCurve).",
